@@ -357,6 +357,7 @@ def run_property(pid: str, tier: str = "quick", replay: Optional[str] = None) ->
             "obligations": len(ctx.obs),
             "discharged": len(discharged),
             "violated": len(violations),
+            "known_findings": [{"obligation": o.oid, "key": o.key, "where": o.where} for o in violations if o.key in known_keys],
             "inconclusive": len(incon),
             "evaluations": max(1, sum(ctx.rule_instances.values()) + len(ctx.obs)),
             "distinct_nontrivial": len(nontrivial),
